@@ -14,6 +14,10 @@ THEOREMS = [
     "B2Z.Rows.C01_rows_no_truncation", "B2Z.Rows.C01_string_row",
     "B2Z.Pipe.splitBy_flatten", "B2Z.Pipe.icfOf_all", "B2Z.Pipe.C01_pipeline_refines_spec",
     "B2Z.Pipe.C03_config_invariant", "B2Z.Pipe.C03_max_chunks_prefix", "B2Z.Pipe.C02_chunk_grid_complete",
+    "B2Z.Fixed.C01_alleles_roundtrip", "B2Z.Fixed.C01_alleles_error_iff", "B2Z.Fixed.lookup_eq_some_iff", "B2Z.Fixed.lookup_eq_none_iff",
+    "B2Z.Fixed.C01_filter_row", "B2Z.Fixed.C01_filter_error", "B2Z.Fixed.C01_filter_roundtrip", "B2Z.Fixed.C01_contig_roundtrip",
+    "B2Z.Fixed.C01_contig_declared", "B2Z.Fixed.C01_genotype_roundtrip", "B2Z.Fixed.C01_genotype_error_iff",
+    "B2Z.Fixed.C01_genotype_absent", "B2Z.Fixed.C01_mask_iff",
 ]
 ASSUMPTIONS = [
     "PARTIAL: VCF/BCF parsing (htslib/cyvcf2), BGZF and the zarr/Blosc byte encodings are outside the model: the model starts at the per-record column values and ends at decoded arrays; the text->value conventions are stated in harness/vczspec.py and validated on every run",
@@ -26,8 +30,11 @@ RULE = ("generated rich VCFs (every Type x Number for INFO and FORMAT, missingne
 LEVEL_TEXT = ("Lean: for one column and every configuration (explode tiling, flush schedule, encode partitioning, chunk size, chunk "
               "cap, execution order of encode partitions) the array read back equals the row encoder applied to the records, row by "
               "row (C01_pipeline_refines_spec), composed from the proved writer/reader (C08), partition cover (C11) and buffered-"
-              "write (C16) lemmas. PARTIAL: parsing and byte codecs are outside the model. Tied to the code by (1) driving the "
-              "pipeline model with the real configuration and comparing a column, (2) comparing every array, dtype, shape and "
+              "write (C16) lemmas; the row encoders of float and string fields are bit exact (Rows.*) and those of the fixed fields "
+              "(alleles, id + mask, filters, contig, genotype + mask + phased) are lossless with exactly the real error branches "
+              "(Fixed.C01_*_roundtrip, *_error_iff). PARTIAL: parsing and byte codecs are outside the model. Tied to the code by (1) driving the "
+              "pipeline model with the real configuration and comparing a column, and feeding Model/FixedFields with the real intermediate "
+              "values of every record and comparing every fixed-field row of the real store, (2) comparing every array, dtype, shape and "
               "attribute of real conversions with an independent oracle computed from the abstract records, across containers "
               "and index types.")
 LEVEL_NOTE = "Trusted: Lean kernel + standard axioms; htslib/cyvcf2 conventions and codecs assumed (validated per run by the oracle); C04/C14 provide the tiling and the task execution."
@@ -125,8 +132,50 @@ def pipeline_model_case(ctx, spec, work, tag):
     if model_rows != got:
         ctx.disagree("variant_position differs from Model.Pipe.pipeline under the real configuration",
                      {"vcf_spec": spec, "config": {k: v for k, v in q.items() if k not in ("vals", "sizes", "op")}}, model_rows[:30], got[:30])
+    fixed_fields_case(ctx, spec, store, out, len(got))
     shutil.rmtree(out, ignore_errors=True)
     shutil.rmtree(icf, ignore_errors=True)
+
+
+def fixed_fields_case(ctx, spec, store, out, nrows):
+    """Model/FixedFields row encoders fed with the real intermediate values of every record, against the real arrays"""
+    import zarr
+    root = zarr.open(str(out), mode="r")
+    declared_f = [str(x) for x in root["filter_id"][:]]
+    declared_c = [str(x) for x in root["contig_id"][:]]
+    cols = {n: list(store.fields[n].iter_values(0, nrows)) for n in ("REF", "ALT", "ID", "FILTERS", "CHROM")}
+    has_gt = "FORMAT/GT" in store.fields and "call_genotype" in root
+    if has_gt:
+        cols["GT"] = list(store.fields["FORMAT/GT"].iter_values(0, nrows))
+        gt_a, gm_a, gp_a = root["call_genotype"][:], root["call_genotype_mask"][:], root["call_genotype_phased"][:]
+    al_a, id_a, idm_a = root["variant_allele"][:], root["variant_id"][:], root["variant_id_mask"][:]
+    fl_a, ct_a = root["variant_filter"][:], root["variant_contig"][:]
+    w = al_a.shape[1]
+    reqs, exp = [], []
+    for i in range(nrows):
+        reqs.append({"op": "fixed.alleles", "w": w, "ref": str(cols["REF"][i][0]), "alt": [str(x) for x in cols["ALT"][i]]})
+        exp.append(("variant_allele", i, [str(x) for x in al_a[i]]))
+        reqs.append({"op": "fixed.id", "id": None if cols["ID"][i] is None else str(cols["ID"][i][0])})
+        exp.append(("variant_id(+mask)", i, [str(id_a[i]), bool(idm_a[i])]))
+        reqs.append({"op": "fixed.filters", "declared": declared_f, "present": [str(x) for x in cols["FILTERS"][i]]})
+        exp.append(("variant_filter", i, [bool(x) for x in fl_a[i]]))
+        reqs.append({"op": "fixed.contig", "declared": declared_c, "chrom": str(cols["CHROM"][i][0])})
+        exp.append(("variant_contig", i, int(ct_a[i])))
+        if has_gt:
+            v = cols["GT"][i]
+            reqs.append({"op": "fixed.gt", "w": gt_a.shape[2], "samples": gt_a.shape[1], "value": None if v is None else [[int(x) for x in r] for r in v]})
+            exp.append(("call_genotype(+mask,+phased)", i, {"gt": [[int(x) for x in r] for r in gt_a[i]],
+                                                            "mask": [[bool(x) for x in r] for r in gm_a[i]],
+                                                            "phased": [bool(x) for x in gp_a[i]]}))
+    res = ctx.driver.ask_many(reqs)
+    bad = 0
+    for q, (name, i, e), m in zip(reqs, exp, res):
+        ctx.count("fixed_field_rows")
+        if m != e:
+            bad += 1
+            if bad <= 3:
+                ctx.disagree(f"{name} row {i} differs from Model.Fixed ({q['op']})", {"vcf_spec": spec, "request": q}, m, e)
+    ctx.case(("fixed", nrows, repr(reqs)[:3000]), True)
 
 
 def encoder_grid(ctx):
@@ -212,7 +261,7 @@ def run(ctx):
                 continue
             kinds = KINDS if ctx.thorough else (KINDS[:3] if k % 2 == 0 else [rng.choice(KINDS), "vcf.gz+tbi0"])
             convert_and_compare(ctx, spec, work, f"f{k}", kinds)
-            if k % 3 == 0:
+            if k % 3 == 0 or not ctx.thorough:
                 pipeline_model_case(ctx, spec, work, f"f{k}")
             for p in pathlib.Path(work).glob(f"f{k}_*"):
                 if p.is_file():
